@@ -811,6 +811,8 @@ def control_tasks(rng, q, with_history, count, sizes, calls):
     for name, tt in gen.gadget_networks().items():
         if len(tt) <= 4:
             tasks.append({"tid": f"g{name}", "tt": tt, "seed": rng.randrange(1 << 30), "calls": calls * 4, "with_history": with_history})
+        if len(tt) <= 5:
+            tasks.append({"tid": f"x{name}", "tt": tt, "seed": 0, "calls": 0, "with_history": False, "grid": True})
     return tasks
 
 
@@ -1052,6 +1054,17 @@ def c16(res: Result):
             t["names"] = names
             t["api"] = True
         tasks.append(t)
+    # stubs that are queried (which fills their derived caches) and expanded later: a reclaim in between must not matter
+    pats = [[{"op": "exp", "n": 1}, {"op": "seeds", "n": 2}, {"op": "seeds", "n": 3}, FULL_BFS, {"op": "allseeds"}],
+            [{"op": "exp", "n": 1}, {"op": "cand", "n": 3}, {"op": "cand", "n": 2}, {"op": "exp", "n": 2}, {"op": "exp", "n": 3}, FULL_DFS],
+            [{"op": "bfs", "n": 1, "lvl": 1, "size": -1}, {"op": "sets", "n": 2}, {"op": "sets", "n": 4}, {"op": "min", "n": 1, "size": -1, "skip": False}, FULL_BFS],
+            [{"op": "seeds", "n": 1}, {"op": "exp", "n": 1}, {"op": "seeds", "n": 2}, {"op": "aseeds", "size": -1}, {"op": "allseeds"}]]
+    import features
+    special = [(k, tt) for k, tt in gen.gadget_networks().items() if len(tt) <= 5]
+    special += [(nm, tt) for nm, tt in features.feature_networks(["new_source", "modules"], 5)][:N(q, 12, 60)]
+    for name, tt in special:
+        for j, ops in enumerate(pats):
+            tasks.append({"kind": "transp", "tid": f"p{name}_{j}", "tt": tt, "ops": ops, "inserts": ["reclaim"] if q else ["pickle", "reclaim"]})
     res.cov["rule"] = ("For random histories of expansion / skip / attractor / control calls, the same history with pickle.loads(pickle.dumps(sd)) or "
                        "reclaim_node_data() inserted at every position is executed; Twin.tla requires identical ids, spaces, edges, motifs, flags, depths, "
                        "seeds, sets, return values and interventions after every corresponding call (raw candidate lists only where neither side reclaimed "
